@@ -409,10 +409,23 @@ func (p *partition) Subscribe(ctx context.Context, req *client.SubscribeRequest)
 		return nil, st
 	}
 
-	if stopOffset != waitForNewMessages && stopOffset < startOffset {
-		return nil, status.New(
-			codes.InvalidArgument, fmt.Sprintf("Stop offset is before start offset: %d < %d",
-				stopOffset, startOffset))
+	if req.Reverse && req.StopPosition == client.StopPosition_STOP_ON_CANCEL {
+		// A reverse subscription without an explicit stop position reads back
+		// to the beginning of the partition.
+		stopOffset = waitForNewMessages
+	}
+
+	if stopOffset != waitForNewMessages {
+		if !req.Reverse && stopOffset < startOffset {
+			return nil, status.New(
+				codes.InvalidArgument, fmt.Sprintf("Stop offset is before start offset: %d < %d",
+					stopOffset, startOffset))
+		}
+		if req.Reverse && stopOffset > startOffset {
+			return nil, status.New(
+				codes.InvalidArgument, fmt.Sprintf("Stop offset is after start offset for reverse subscription: %d > %d",
+					stopOffset, startOffset))
+		}
 	}
 
 	// Cancel previous group subscriber if there was one.
@@ -504,6 +517,18 @@ func (p *partition) newSubscribeLoop(ctx context.Context, groupID, consumerID st
 				}
 				return
 			}
+			// The stop offset itself may no longer exist, e.g. because it was
+			// compacted. Do not deliver anything beyond it.
+			if stopOffset != waitForNewMessages &&
+				((!reverse && offset > stopOffset) || (reverse && offset < stopOffset)) {
+				s := status.New(codes.ResourceExhausted, "Stop offset reached")
+				select {
+				case errCh <- s:
+				case <-cancel:
+				}
+				return
+			}
+
 			msgValue := m.Value()
 
 			headers := m.Headers()
